@@ -578,6 +578,14 @@ func c08SlowDestroy(seed int64, maxpend int) core.Result {
 			return res
 		}
 		res.Evals++
+		var flushOfSlow *wire.Msg
+		if round%2 == 1 {
+			// a Tflush naming the request that sits in FidDestroy: the flush may have to wait for it, nobody else does
+			flushOfSlow = &wire.Msg{Type: wire.Tflush, Oldtag: slow.Tag, Tag: e.next()}
+			_ = c.Send(flushOfSlow)
+			s.Ctl.WaitPassed("flush.enter", c.ID, int(flushOfSlow.Tag), 1, 500*time.Millisecond)
+			time.Sleep(time.Millisecond)
+		}
 		var free []*wire.Msg
 		for i := 0; i < 1+round%4; i++ {
 			free = append(free, &wire.Msg{Type: wire.Tstat, Fid: e.root, Tag: e.next()})
@@ -626,9 +634,15 @@ func c08SlowDestroy(seed int64, maxpend int) core.Result {
 			}
 		}
 		c.WaitTag(slow.Tag, W)
+		if flushOfSlow != nil {
+			if rp, err := c.WaitTag(flushOfSlow.Tag, W); err != nil || rp.Msg == nil || rp.Msg.Type != wire.Rflush {
+				res.Violate("C08;slow-fiddestroy;flush-of-the-slow-request-unanswered", "the Tflush naming a request blocked in FidDestroy was not answered after the request was released", det)
+			}
+			res.Count("flushes_of_a_request_blocked_in_fiddestroy", 1)
+		}
 		c.Quiesce(W)
 		res.Count("requests_blocked_in_fiddestroy", 1)
-		res.Sig(fmt.Sprintf("slowdestroy|mp=%d|%s|free=%d", maxpend, kind, len(free)))
+		res.Sig(fmt.Sprintf("slowdestroy|mp=%d|%s|free=%d|flushed=%v", maxpend, kind, len(free), flushOfSlow != nil))
 	}
 	res.Sample(map[string]interface{}{"scenario": "Tclunk/Tremove/failed Twalk blocked inside FidDestroy while other requests must progress", "maxpend": maxpend})
 	e.c.Hangup()
